@@ -173,6 +173,9 @@ struct Cfg {
     /// the transport accepts only the first three bytes of the first frame after Login Success (a Keep
     /// Alive when routing is slow) and then blocks until t = 20 s, i.e. until after discovery has answered
     ka_stall: bool,
+    /// the client does not wait for the server: every packet of the history goes out in the same burst as
+    /// the one before it (only an Encryption Response has to wait for the request it answers: it needs the key and the token)
+    burst: bool,
 }
 
 /// The reference automaton. Returns every allowed prediction (more than one where a frame is
@@ -288,6 +291,13 @@ fn build(hist: &[Kind], cfg: &Cfg) -> Case {
             )
         })
         .collect();
+    if cfg.burst {
+        for (i, step) in case.script.iter_mut().enumerate() {
+            if i > 0 && !matches!(step.act, Act::EncResponse(_)) {
+                step.when = When::With;
+            }
+        }
+    }
     // the first frame decides the phase in which the client decodes
     if let Some(k) = hist.first() {
         if k.id == 0 {
@@ -423,21 +433,24 @@ pub fn run(cli: Cli) -> ! {
     for secret in [false, true] {
         for status in ["minimal", "none", "full"] {
             for disc_ms in if thorough { vec![0u64, 17_000] } else { vec![0u64] } {
-                cfgs.push(Cfg { secret, status, disc_ms, one_byte: false, ka_stall: false });
+                cfgs.push(Cfg { secret, status, disc_ms, one_byte: false, ka_stall: false, burst: false });
             }
         }
     }
     // routing that completes 1-4 s before a keep-alive tick (whatever follows the Transfer would show)
-    cfgs.push(Cfg { secret: true, status: "minimal", disc_ms: 12_000, one_byte: false, ka_stall: false });
-    cfgs.push(Cfg { secret: false, status: "minimal", disc_ms: 15_000, one_byte: false, ka_stall: false });
+    cfgs.push(Cfg { secret: true, status: "minimal", disc_ms: 12_000, one_byte: false, ka_stall: false, burst: false });
+    cfgs.push(Cfg { secret: false, status: "minimal", disc_ms: 15_000, one_byte: false, ka_stall: false, burst: false });
+    // the whole history in one burst (the packets arrive coalesced, possibly in one read)
+    cfgs.push(Cfg { secret: true, status: "minimal", disc_ms: 0, one_byte: false, ka_stall: false, burst: true });
+    cfgs.push(Cfg { secret: false, status: "full", disc_ms: 0, one_byte: false, ka_stall: false, burst: true });
     // a Keep Alive that the transport accepts only partially before discovery answers
-    cfgs.push(Cfg { secret: true, status: "minimal", disc_ms: 17_000, one_byte: false, ka_stall: true });
+    cfgs.push(Cfg { secret: true, status: "minimal", disc_ms: 17_000, one_byte: false, ka_stall: true, burst: false });
     if !thorough {
-        cfgs.push(Cfg { secret: true, status: "minimal", disc_ms: 17_000, one_byte: false, ka_stall: false });
+        cfgs.push(Cfg { secret: true, status: "minimal", disc_ms: 17_000, one_byte: false, ka_stall: false, burst: false });
     } else {
         // the same search over a transport that moves one byte at a time
-        cfgs.push(Cfg { secret: true, status: "full", disc_ms: 0, one_byte: true, ka_stall: false });
-        cfgs.push(Cfg { secret: false, status: "minimal", disc_ms: 17_000, one_byte: true, ka_stall: false });
+        cfgs.push(Cfg { secret: true, status: "full", disc_ms: 0, one_byte: true, ka_stall: false, burst: false });
+        cfgs.push(Cfg { secret: false, status: "minimal", disc_ms: 17_000, one_byte: true, ka_stall: false, burst: false });
     }
     let depth_cap = if thorough { 11 } else { 9 };
     // in the configuration phase only this many further packets are explored per history
@@ -446,7 +459,7 @@ pub fn run(cli: Cli) -> ! {
     if let Some(case) = cli.replay.clone() {
         let names: Vec<String> = serde_json::from_value(case["history"].clone()).unwrap_or_default();
         let hist: Vec<Kind> = names.iter().filter_map(|n| all_kinds.iter().find(|k| k.name == n).cloned()).collect();
-        let cfg = Cfg { secret: case["secret"].as_bool().unwrap_or(false), status: match case["status"].as_str() { Some("none") => "none", Some("full") => "full", _ => "minimal" }, disc_ms: case["disc_ms"].as_u64().unwrap_or(0), one_byte: case["one_byte"].as_bool().unwrap_or(false), ka_stall: case["ka_stall"].as_bool().unwrap_or(false) };
+        let cfg = Cfg { secret: case["secret"].as_bool().unwrap_or(false), status: match case["status"].as_str() { Some("none") => "none", Some("full") => "full", _ => "minimal" }, disc_ms: case["disc_ms"].as_u64().unwrap_or(0), one_byte: case["one_byte"].as_bool().unwrap_or(false), ka_stall: case["ka_stall"].as_bool().unwrap_or(false), burst: case["burst"].as_bool().unwrap_or(false) };
         let obs = crate::sim::run(&build(&hist, &cfg));
         let preds = predict(&hist, &cfg);
         println!("history: {}", hist_json(&hist));
@@ -514,7 +527,7 @@ pub fn run(cli: Cli) -> ! {
                     rep.violation(Violation {
                         key: k,
                         text: format!("history {} secret={} status={} disc_ms={}: {t}", hist_json(h), cfg.secret, cfg.status, cfg.disc_ms),
-                        replay: json!({"history": hist_json(h), "secret": cfg.secret, "status": cfg.status, "disc_ms": cfg.disc_ms, "one_byte": cfg.one_byte, "ka_stall": cfg.ka_stall}),
+                        replay: json!({"history": hist_json(h), "secret": cfg.secret, "status": cfg.status, "disc_ms": cfg.disc_ms, "one_byte": cfg.one_byte, "ka_stall": cfg.ka_stall, "burst": cfg.burst}),
                         weight: h.len() as u64,
                     });
                     return;
